@@ -16,6 +16,7 @@ import (
 func genSrvHpackUpd(p *prng, thorough bool, w *bufio.Writer) {
 	g := newSgen(p, w)
 	prefixes := [][]int{{0}, {4096}, {0, 4096}, {100, 31}, {4096, 0, 64}}
+	lateVariant := 0
 	for _, pre := range prefixes {
 		for _, inTrailers := range []bool{false, true} {
 			g.newConn(4, 0, 0)
@@ -126,11 +127,28 @@ func genSrvHpackUpd(p *prng, thorough bool, w *bufio.Writer) {
 			{
 				sid := g.sid()
 				r := reqGen{sid: sid, method: "GET", scheme: "https", path: "/late", auth: "a"}
+				g.line("#invalid-block %d", sid) // RFC 7541 4.2: a decoding error; the request must not reach the handler
 				list := r.headerList()
 				head := g.enc.block(p, list[:1])
+				var mid []byte
+				if lateVariant%4 == 3 {
+					mid = g.enc.block(p, list[1:2])
+					list = append(list[:1:1], list[2:]...)
+				}
 				tail := g.enc.sizeUpdate(nil, 4096)
 				tail = append(tail, g.enc.block(p, list[1:])...)
 				g.frame(frameBytes(1, 1, sid, head))
+				// ... also when frames that complete no field, or another whole field, lie in between
+				switch lateVariant % 4 {
+				case 1:
+					g.frame(frameBytes(9, 0, sid, nil)) // an empty CONTINUATION
+				case 2:
+					g.frame(frameBytes(9, 0, sid, nil))
+					g.frame(frameBytes(9, 0, sid, nil))
+				case 3:
+					g.frame(frameBytes(9, 0, sid, mid)) // a CONTINUATION holding one whole field
+				}
+				lateVariant++
 				g.frame(frameBytes(9, 4, sid, tail))
 			}
 			g.gauges()
